@@ -98,9 +98,18 @@ func scalarReflectFromGo(schema *schema_j5pb.Field, value interface{}) (protoref
 		if numVal, ok := value.(json.Number); ok {
 			i64, err := numVal.Int64()
 			if err != nil {
-				return pv, err
+				// unsigned values above MaxInt64 are valid for uint64 fields
+				if st.Integer.Format != schema_j5pb.IntegerField_FORMAT_UINT64 {
+					return pv, err
+				}
+				u64, uerr := strconv.ParseUint(string(numVal), 10, 64)
+				if uerr != nil {
+					return pv, err
+				}
+				value = u64
+			} else {
+				value = i64
 			}
-			value = i64
 		}
 
 		switch st.Integer.Format {
